@@ -28,10 +28,42 @@ Inductive case :=
     (* one writer moves an entry back and forth between two keys with Update (mv <-> mv') over a fixed set of other
        items while readers scan and Get concurrently; seen = the distinct (operation, result) pairs the readers
        observed, falses = how often Update returned false *)
+| CaseB (start step count stride : Z) (scans : list (wscan * Z * filt * Z * (Z * list item * list item * Z)))
+    (* a big wrapper tree given compactly: the items (k, k+7) for the keys k = start + step*i, i = (j*stride) mod count,
+       inserted in the order j = 0..count-1; then bounded scans (which, pivot, filter, limit), each observed through a
+       summary of the returned list: (length, its first three items, its last three items, a checksum) *)
 | CaseFatal.                                          (* the implementation killed or hung the process *)
 
 (* the model stands for trees below 2^31 items (above that its constant recursion fuel is not known to suffice) *)
 Definition LIM : Z := 2147483648.
+
+(* big trees given compactly *)
+Definition big_items (start step count stride : Z) : list item :=
+  map (fun j => let k := start + step * Z.modulo (Z.of_nat j * stride) count in (k, k + 7)) (seq 0 (Z.to_nat count)).
+Definition CKP : Z := 2147483647.
+Definition checksum (l : list item) : Z := fold_left (fun acc x => Z.modulo (acc * 1000003 + fst x * 7 + snd x) CKP) l 0.
+Definition summ (l : list item) : Z * list item * list item * Z :=
+  (Z.of_nat (length l), firstn 3 l, rev (firstn 3 (rev l)), checksum l).
+Definition summ_eqb (a b : Z * list item * list item * Z) : bool :=
+  let '(n1, f1, l1, c1) := a in let '(n2, f2, l2, c2) := b in (n1 =? n2) && ilist_eqb f1 f2 && ilist_eqb l1 l2 && (c1 =? c2).
+Definition big_ops (start step count stride : Z) (scans : list (wscan * Z * filt * Z * (Z * list item * list item * Z))) : list wop :=
+  map WInsert (big_items start step count stride) ++ map (fun sc => let '(w, k, f, n, _) := sc in WScan w k f n) scans.
+Fixpoint big_cmp (scans : list (wscan * Z * filt * Z * (Z * list item * list item * Z))) (outs : list obs) : bool :=
+  match scans, outs with
+  | [], [] => true
+  | (_, _, _, _, sm) :: scans', OList l :: outs' => summ_eqb sm (summ l) && big_cmp scans' outs'
+  | _, _ => false
+  end.
+(* the model's results of an operation list (None: out of fuel or beyond the size bound) *)
+Fixpoint w_outs (t : itree) (ops : list wop) : option (list obs) :=
+  match ops with
+  | [] => Some []
+  | o :: r => match w_step t o with
+              | Some (t', x) => if ilen t' <? LIM then match w_outs t' r with Some xs => Some (x :: xs) | None => None end else None
+              | None => None end
+  end.
+Fixpoint ws_outs (L : list item) (ops : list wop) : list obs :=
+  match ops with [] => [] | o :: r => snd (ws_step L o) :: ws_outs (fst (ws_step L o)) r end.
 
 (* the mover scenario: Update is one critical section, so at every linearisation point the map is one of two states,
    and every read returns what one of the two states returns *)
@@ -143,6 +175,10 @@ Definition model_ok (c : case) : bool :=
       | None => false
       end
   | CaseM fixed mv mv' falses seen => mover_ok fixed mv mv' falses seen
+  | CaseB start step count stride scans =>
+      (0 <? count) && match w_outs iempty (big_ops start step count stride scans) with
+                      | Some outs => big_cmp scans (skipn (Z.to_nat count) outs)
+                      | None => false end
   | CaseFatal => false
   end.
 
@@ -198,6 +234,8 @@ Definition case_holds (c : case) : bool :=
       | None => false
       end
   | CaseM fixed mv mv' falses seen => mover_ok fixed mv mv' falses seen
+  | CaseB start step count stride scans =>
+      (0 <? count) && big_cmp scans (skipn (Z.to_nat count) (ws_outs [] (big_ops start step count stride scans)))
   | CaseFatal => false
   end.
 
@@ -295,9 +333,17 @@ Proof.
     cbn [map]. rewrite (refines_list WDEG tf Lf (proj1 Rf)). reflexivity.
 Qed.
 
+Lemma w_outs_sound : forall ops t L outs, refines WDEG t L -> w_outs t ops = Some outs -> outs = ws_outs L ops.
+Proof.
+  induction ops as [|o ops IH]; intros t L outs HR H; cbn [w_outs ws_outs] in *; [inversion H; reflexivity|].
+  destruct (w_step_refines t L o HR) as (t' & E & R'). rewrite E in H.
+  destruct (ilen t' <? LIM) eqn:El; [|discriminate]. destruct (w_outs t' ops) as [xs|] eqn:Ex; [|discriminate]. inversion H; subst outs.
+  f_equal. apply (IH t' _ xs); [apply lim_small; assumption|exact Ex].
+Qed.
+
 Theorem case_sound : forall c, case_accept c = true -> case_holds c = true.
 Proof.
-  intros c H. unfold case_accept in H. destruct c as [steps|deg steps|deg steps|g hist final|fixed mv mv' falses seen|]; cbn [model_ok case_holds] in *.
+  intros c H. unfold case_accept in H. destruct c as [steps|deg steps|deg steps|g hist final|fixed mv mv' falses seen|start step count stride scans|]; cbn [model_ok case_holds] in *.
   - apply (w_run_sound steps iempty []); [apply refines_empty|exact H].
   - apply andb_prop in H as [Hd H]. rewrite Hd. cbn [andb]. apply Nat.leb_le in Hd.
     apply (i_run_sound deg Hd steps iempty []); [apply refines_empty|exact H].
@@ -308,5 +354,8 @@ Proof.
     destruct (opts_all (map (p_run1 iempty) hist)) as [ts|] eqn:E; [|discriminate].
     rewrite (p_all_sound hist ts E). exact H.
   - exact H.
+  - apply andb_prop in H as [Hc H]. rewrite Hc. cbn [andb].
+    destruct (w_outs iempty (big_ops start step count stride scans)) as [outs|] eqn:E; [|discriminate].
+    rewrite <- (w_outs_sound _ iempty [] outs (refines_empty WDEG) E). exact H.
   - discriminate.
 Qed.
